@@ -136,7 +136,7 @@ class C03(Prop):
         '(shape and finiteness only); affine bounds 256 eps (difference rules) and 4 eps (complex order 2, '
         'multicomplex); K_DIR for the directional relation',
     )
-    examples = {'quick': 150, 'thorough': 2500}
+    examples = {'quick': 400, 'thorough': 8000}
 
     def __init__(self):
         self.table = load_table()
@@ -163,7 +163,7 @@ class C03(Prop):
             ctx.skip('fewer steps than the rule needs (misuse, see C11)')
         return d, steps, k_est, scale
 
-    def _entries(self, ctx, case, an, lib, exact, steps, k_est, d, what):
+    def _entries(self, ctx, case, an, lib, exact, steps, k_est, d, what, fstep=None):
         """Compare canonical (elements, n) arrays; returns (sensitive, bounds array)."""
         method, order = case['method'], case['order']
         n = an.n
@@ -210,8 +210,13 @@ class C03(Prop):
                 if S is None or not math.isfinite(S):
                     ctx.count('scale unavailable')
                     continue
-                floor = FLOOR * EPS * (abs(exact[e, j]) +
-                                       ((n + 2) * an.noise(e) / hmin[j] if diff_forming else 0.0))
+                # the step the library reports having used, clamped into the generated range (a wrong
+                # record can only make the floor smaller than the worst case h_min)
+                hf = hmin[j]
+                if fstep is not None and math.isfinite(fstep[e, j]):
+                    hf = min(max(fstep[e, j], hmin[j]), hmax[j])
+                floor = FLOOR * EPS * (abs(exact[e, j]) + (n + 2) * (
+                    an.cond(e, (j,)) + (an.noise(e) / hf if diff_forming else 0.0)))
                 excess = max(err - floor, 0.0)
                 ratio = excess / S if S > 0 else (0.0 if excess == 0 else math.inf)
                 ctx.track('err/S|%s|1|%s' % (method, bucket), ratio,
@@ -306,7 +311,15 @@ class C03(Prop):
         if canon.shape != Jex.shape:
             raise Violation('shape', 'Jacobian has %s entries per variable, the function has %d output elements'
                             % (canon.shape[0], Jex.shape[0]))
-        sensitive, bounds = self._entries(ctx, case, an, canon, Jex, steps, k_est, d, 'J')
+        fstep = None
+        if case['full_output']:
+            try:
+                fs = np.abs(np.asarray(out[1].final_step, dtype=float)).reshape(lib.shape)
+                fstep = fs.reshape(1, n) if fx.ndim == 0 else fs if fx.ndim == 1 else \
+                    fs.transpose(0, 2, 1).reshape(-1, n)
+            except Exception:
+                fstep = None
+        sensitive, bounds = self._entries(ctx, case, an, canon, Jex, steps, k_est, d, 'J', fstep)
         E = Jex.shape[0]
         visible = E != n or len(prog['B']) > 1
         if not visible:
@@ -338,7 +351,13 @@ class C03(Prop):
             if est.size != n:
                 raise Violation('grad-shape', 'error_estimate has %d entries for %d variables' % (est.size, n))
         Jex = an.jacobian().reshape(1, n)
-        sensitive, _ = self._entries(ctx, case, an, lib.reshape(1, n), Jex, steps, k_est, d, 'grad')
+        fstep = None
+        if case['full_output']:
+            try:
+                fstep = np.abs(np.asarray(out[1].final_step, dtype=float)).reshape(1, n)
+            except Exception:
+                fstep = None
+        sensitive, _ = self._entries(ctx, case, an, lib.reshape(1, n), Jex, steps, k_est, d, 'grad', fstep)
         # the single Jacobian row, same configuration
         dj = builder(nd, nd.Jacobian, f, case, False)(scale, self._base)
         with ctx.lib('no-exception', 'Jacobian of the scalar function'):
@@ -404,7 +423,8 @@ class C03(Prop):
         hmin0 = min(float(np.min(s)) for s in steps0)
         hmin = min(float(np.min(s)) for s in steps)
         diff_forming = difference_forming(method, order)
-        floor = FLOOR * EPS * (mag + ((n + 2) * an.noise(0) / min(hmin0, hmin) if diff_forming else 0.0))
+        condv = float(sum(abs(unit[j]) * an.cond(0, (j,)) for j in range(n)))
+        floor = FLOOR * EPS * (mag + (n + 2) * (condv + (an.noise(0) / min(hmin0, hmin) if diff_forming else 0.0)))
         diff = abs(dd - rel)
         excess = max(diff - floor, 0.0)
         ratio = excess / est_sum if est_sum > 0 else (0.0 if excess == 0 else math.inf)
